@@ -114,6 +114,11 @@ class FSA:
         else:
             self._out_dict = FSA._defaultify_out_dict(vert_dict)
 
+            # vertices which only occur as edge targets get a row too
+            for neighbors in list(self._out_dict.values()):
+                for neighbor in neighbors:
+                    self._out_dict.setdefault(neighbor, defaultdict(list))
+
             self._build_in_dict()
             self._build_graph_dict()
 
